@@ -97,8 +97,11 @@ mutual
       let l := endFiles pre (flatFiles files) + free
       okFiles h files && decide (e < 2 ^ 62) && padsSmall pre (normFiles h files) &&
         (decide (e ≤ l) ||
+          -- a nested volume grows to the next multiple of its first block size: that length has to be
+          -- a multiple of 8 below 2^62 again (automatic for a power-of-two block size ≥ 8)
           (rz && (match blocks with
-                  | b0 :: _ => b0.size != 0 && decide (e ≤ alignGo e b0.size)
+                  | b0 :: _ => b0.size != 0 && decide (e ≤ alignGo e b0.size) &&
+                      decide (alignGo e b0.size % 8 = 0) && decide (alignGo e b0.size < 0x4000000000000000)
                   | [] => false)))
     | .other _ => true
 where
